@@ -8,10 +8,11 @@ LEVEL = "exploration"
 TECHNIQUE = "deterministic simulation under a virtual clock: seeded change timing relative to engine steps; every pick of the scheduler and every propagating sync call observed at the seam"
 RULE = ("each run = flavour pair, ageing in {0, default 0.002, 0.5, 5 s}, a prioritise function mapping file/folder names to {-1, 0, 1, 2} (or none), history of 1-7 user ops with explicit clock "
         "advances so that changes land before / at / after the ageing boundary, repeated changes to the same object, schedule style batched|bursty|split; family 'lock' adds an object that fails "
-        "permanently. Observed (all times virtual): the time the engine is notified of each change (wrapper around event application, per entry and side), every pick of SyncState.change(), and every "
+        "permanently (the mock's per-path lock = a cloud error, or in a third of these runs an OSError from the provider call = a non-cloud failure). Observed (all times virtual): the time the engine is notified of each change (wrapper around event application, per entry and side), every pick of SyncState.change(), and every "
         "embrace_change() call that issues a provider write. Laws checked: (1) a change of side s of an entry is never propagated earlier than ageing after the engine's last notification for that "
         "entry and side, unless the entry's priority is negative; (2) the entry picked is minimal by (priority, change time) among the entries eligible at that instant, and with ageing 0 a pick is "
-        "never refused while a stamped entry is pending; (3) while one object keeps failing all others still synchronise, and the failing one is re-attempted within a bounded virtual delay. "
+        "never refused while a stamped entry is pending; (3) while one object keeps failing all others still synchronise, and the failing one is re-attempted within a bounded virtual delay; "
+        "(4) a pending entry whose path the application's prioritise function maps to a negative value and which the engine has never deferred (punt() adds 1) never shows priority 0 - the 'immediately' mark is the application's and must not be dropped. "
         "distinct = (history shape, schedule, flavour, ageing, priority map); non-trivial = >=1 propagating call observed and >=1 clock advance or ageing > default.")
 ASSUMPTIONS = ["the virtual clock is the only clock the engine reads (sim/det.py)", "notification time = the instant EventManager._process_event applied an event to that entry (not the user's operation time)",
                "order law uses the engine's own stamp per entry (max of both sides), as the statement's 'older changes first' is defined on what the engine was told"]
@@ -26,7 +27,25 @@ def budget(tier):
     return {"quick": {"runs": 4000, "wall": 170}, "thorough": {"runs": 48000, "wall": 900}}[tier]
 
 
+_PUNT_SINK = [None]
+
+
+def _patch_punt():
+    from sim.det import statemod
+    if getattr(statemod.SyncEntry.punt, "_c17", False):
+        return
+    orig = statemod.SyncEntry.punt
+
+    def punt(self):
+        if _PUNT_SINK[0] is not None:
+            _PUNT_SINK[0].add(self._vserial)
+        return orig(self)
+    punt._c17 = True
+    statemod.SyncEntry.punt = punt
+
+
 def _install(ex, case):
+    _patch_punt()
     w = ex.world
     cs = w.cs
     st = cs.state
@@ -34,6 +53,9 @@ def _install(ex, case):
     ex.notified = {}        # (entry serial, side) -> virtual time of the last event applied
     ex.early = []
     ex.order_bad = []
+    ex.mark_lost = getattr(ex, "mark_lost", [])
+    ex.punted = getattr(ex, "punted", set())       # entries the engine has deferred at least once (punt() adds 1: -1 becomes 0)
+    _PUNT_SINK[0] = ex.punted
     ex.refused = []
     ex.attempts = {}        # entry serial -> [times of embrace calls]
     ex.propagations = 0
@@ -71,6 +93,18 @@ def _install(ex, case):
                 k2 = (e.priority, max(e[0].changed or 0, e[1].changed or 0))
                 if el and k2 < key:
                     ex.order_bad.append((round(now2, 4), "picked %s key=%s while eligible %s key=%s" % (r[0].path or r[1].path, key, e[0].path or e[1].path, k2)))
+        # law (4): 'immediately' is the application's word - an entry whose path the application's prioritise function maps to a
+        # negative value must carry a negative priority whenever it is pending, unless the engine has deferred it after a failed
+        # attempt (priority > 0).  Priority 0 on such an entry means the mark was lost and the entry now waits out the ageing interval.
+        pm = case.get("prio")
+        if pm:
+            for e in st._changeset:
+                # (an entry has one priority, taken from the side whose path changed last: judge only entries all of whose known
+                #  paths the application maps to 'immediately')
+                pths = [(sd, e[sd].path) for sd in (0, 1) if e[sd].path]
+                if pths and e.priority == 0 and e._vserial not in ex.punted and (e[0].changed or e[1].changed) \
+                        and all(pm.get(pth.rsplit("/", 1)[-1], 0) < 0 for sd, pth in pths):
+                    ex.mark_lost.append((round(CLOCK.now, 4), pths[0][1], pths[0][0]))
         if r is not None:
             ex.last_pick = (r._vserial, (r[0].changed, r[1].changed), r.priority, CLOCK.now)
         else:
@@ -131,13 +165,18 @@ def _setup(ex, case):
     _install(ex, case)
     w.on_boot = lambda world: _install(ex, case)
 
-    def x_lock(exx, side, rel):
-        w.provs[side]._locked_for_test.add(w.roots[side] + rel)
+    def x_lock(exx, side, rel, kind="cloud"):
+        if kind == "os":
+            # the provider fails with a non-cloud exception (OSError): the engine's catch-all must defer the entry all the same
+            w.ctl.hard_fail.setdefault(side, set()).add(w.roots[side] + rel)
+        else:
+            w.provs[side]._locked_for_test.add(w.roots[side] + rel)
         exx.locked[side][rel] = True
         return True
 
     def x_unlock(exx, side, rel):
         w.provs[side]._locked_for_test.discard(w.roots[side] + rel)
+        w.ctl.hard_fail.get(side, set()).discard(w.roots[side] + rel)
         exx.locked[side].pop(rel, None)
         return True
 
@@ -201,6 +240,9 @@ def _verdict(ex, case):
             e["side"], e["path"], e["t"], e["t"] - e["notified"], e["notified"], e["ageing"], e["prio"], e["stamps"], e["writes"], e["mech"]), mech=e["mech"])
     if ex.order_bad:
         return Violation("order", "scheduler order law broken %d time(s); first: %s" % (len(ex.order_bad), ex.order_bad[0]))
+    if ex.mark_lost:
+        return Violation("immediate-mark-lost", "the application's prioritise function maps %s to a negative priority ('immediately'), the entry was never deferred, yet at t=%s it is pending with priority 0 (side %d): it now waits out the ageing interval" % (
+            ex.mark_lost[0][1], ex.mark_lost[0][0], ex.mark_lost[0][2]))
     if ex.refused:
         return Violation("ageing-zero-refused", "with ageing 0 the scheduler refused to pick although stamped entries were pending: %s" % (ex.refused[0],))
     if not ex.propagations:
@@ -247,7 +289,7 @@ def generate(rng, tier, index):
             if not files:
                 return
             victim = rng.choice(files)
-            ex.apply(["X", "lock", 1 - side, victim])
+            ex.apply(["X", "lock", 1 - side, victim] + (["os"] if index % 3 == 0 else []))
             ex.apply(["X", "starve_check", rng.choice([60, 120])])
             ex.apply(["X", "unlock", 1 - side, victim])
             return
